@@ -384,6 +384,11 @@ func (iter *Iter) SliceMap() ([]map[string]interface{}, error) {
 
 	// Not checking for the error because we just did
 	rowData, _ := iter.RowData()
+	if len(rowData.Columns) == 0 && iter.numRows > 0 {
+		// Scan consumes no bytes for rows without columns, so the row count alone, an
+		// unchecked number from the wire, would decide how many maps are created
+		return nil, fmt.Errorf("gocql: rows result without columns")
+	}
 	dataToReturn := make([]map[string]interface{}, 0)
 	for iter.Scan(rowData.Values...) {
 		m := make(map[string]interface{}, len(rowData.Columns))
